@@ -130,7 +130,17 @@ def check_c01(tier):
     recs = flatten(run, lambda r: r["kind"] in ("C01", "error"))
     trecs, tsum = trace_records(run, lambda c: True, 2 if tier == "quick" else 3)
     recs += [r for r in trecs if r["kind"] == "C01"]
-    return _finish("C01", tier, run, recs, lambda c: True, trace=tsum)
+    # the numba backend re-implements the lookup by coordinate-type signature: the same cases compiled, in
+    # sampled signature pairings (a different sample from C07's: the seed is offset), against the interpreter
+    from . import numbax
+
+    nres = numbax.replay([c for c in run["cases"] if not c["op"].startswith("rawtau_")], [], tier="quick" if tier == "quick" else "full",
+                         seed=common.seed() + 1, only_jobs=True)
+    recs += nres["records"]
+    out = _finish("C01", tier, run, recs, lambda c: True, trace=tsum)
+    out["coverage"]["numba_compiled_signature_jobs"] = nres["jobs"]
+    out["coverage"]["numba_comparisons"] = nres["calls"]
+    return out
 
 
 def check_c02(tier):
@@ -149,11 +159,12 @@ RANGE_OPS = {"phi", "deltaphi", "theta", "deltaangle", "rho", "mag", "rho2", "ma
 
 
 def check_c13(tier):
-    run = run_cases(_tier(tier), groups=["unary", "binnum", "pred", "rawtau"])
+    # every group: the stored phi / rho / theta of every vector-valued result are range-checked too
+    run = run_cases(_tier(tier))
     recs = flatten(run, lambda r: r["kind"] == "range" or (r["case"]["op"] in PRED_OPS and r["kind"] in ("C01", "C02", "error"))
                    or (r["case"]["op"] in RANGE_OPS and r["kind"] == "C02")
                    or (r["case"]["op"].startswith("rawtau_") and r["kind"] in ("C01", "C02", "error")))
-    return _finish("C13", tier, run, recs, lambda c: c["op"] in PRED_OPS or c["op"] in RANGE_OPS or c["op"].startswith("rawtau_"))
+    return _finish("C13", tier, run, recs, lambda c: True)
 
 
 def replay_file(prop, path):
